@@ -345,7 +345,7 @@ func run(c *mon.Ctx) {
 		checkStreamType(c, "LookupPmtStreamType", byte(code), psi.LookupPmtStreamType(byte(code)))
 		checkStreamType(c, "NewPmtElementaryStream", byte(code), psi.NewPmtElementaryStream(byte(code), 0x100+code, nil))
 		// the same through a decoded PMT, queried by PID
-		p := ref.PMT{Program: 1, Version: 3, CurrentNext: true, PCRPID: 0x100}
+		p := ref.PMT{Program: 1, Version: 3, CurrentNext: code%3 != 1, PCRPID: 0x100} // (a section that is not applicable yet is a section like any other)
 		pid := 0x20 + r.Intn(8000)
 		other := (pid + 1 + r.Intn(50)) & 0x1fff
 		p.Streams = []ref.ES{{Type: 0x1b, PID: other}, {Type: byte(code), PID: pid, Descs: []ref.Desc{{Tag: 0x52, Body: []byte{7}}}}}
@@ -375,7 +375,7 @@ func run(c *mon.Ctx) {
 		for code := range got {
 			checkStreamType(c, "LookupPmtStreamType (all 256 results collected before any is looked at)", byte(code), got[code])
 		}
-		p := ref.PMT{Program: 1, Version: 1, CurrentNext: true, PCRPID: 0x100}
+		p := ref.PMT{Program: 1, Version: 1, CurrentNext: k%4 != 3, PCRPID: 0x100}
 		n := 2 + r.Intn(40)
 		for j := 0; j < n; j++ {
 			p.Streams = append(p.Streams, ref.ES{Type: byte(perm[j]), PID: 0x100 + j})
@@ -425,7 +425,7 @@ func run(c *mon.Ctx) {
 		}
 		var e exp
 		n := 1 + r.Intn(6)
-		p := ref.PMT{Program: uint16(1 + r.Intn(1000)), Version: byte(r.Intn(32)), CurrentNext: true, PCRPID: 0x100}
+		p := ref.PMT{Program: uint16(1 + r.Intn(1000)), Version: byte(r.Intn(32)), CurrentNext: !r.Chance(4), PCRPID: 0x100}
 		for j := 0; j < n; j++ {
 			l, rate := lang(r), uint32(r.Intn(1<<21))
 			t := r.PickByte([]byte{0x0f, 0x81, 0x87, 0x1b, 0x24, 0x02, 0x86, 0x06, 0x03, r.Byte()})
@@ -530,7 +530,7 @@ func run(c *mon.Ctx) {
 	})
 	// the PMT-level query by PID, across removals (query, remove, query again)
 	c.Stream("pmt-query-after-remove", c.N(4000, 2000000), func(i int, r *gen.Rand) {
-		p := ref.PMT{Program: 1, Version: byte(r.Intn(32)), CurrentNext: true, PCRPID: 0x100}
+		p := ref.PMT{Program: 1, Version: byte(r.Intn(32)), CurrentNext: !r.Chance(4), PCRPID: 0x100}
 		n := 2 + r.Intn(7)
 		codes := []byte{0x1b, 0x0f, 0x86, 0x03, 0x04, 0x11, 0x81, 0x87, 0x88, 0x02, 0x24, 0x15, 0x06}
 		for k := 0; k < n; k++ {
@@ -669,6 +669,12 @@ func run(c *mon.Ctx) {
 			}
 			if st.StreamType() != code || st.StreamTypeDescription() == "" {
 				return fmt.Sprintf("LookupPmtStreamType(%#x) returned code %#x / description %q", code, st.StreamType(), st.StreamTypeDescription())
+			}
+			prof, lvl := q.Intn(128), q.Intn(32)
+			w16 := uint16(prof)<<9 | uint16(lvl)<<3 | uint16(q.Intn(8))
+			dv := psi.NewPmtDescriptor(0xb0, []byte{1, 0, byte(w16 >> 8), byte(w16), 0})
+			if g, want := dv.DecodeDolbyVisionCodec("hvc1"), fmt.Sprintf("dvhe.%02d.%02d", prof, lvl); g != want {
+				return fmt.Sprintf("DecodeDolbyVisionCodec = %q, encoded profile %d level %d (%q)", g, prof, lvl, want)
 			}
 			return ""
 		})
